@@ -16,10 +16,10 @@ for p in props:
         continue
     checks.append({
         "property_id": pid,
-        "quick_cmd": f"/venv/bin/python -m asv {pid} --tier quick",
-        "thorough_cmd": f"/venv/bin/python -m asv {pid} --tier thorough",
+        "quick_cmd": f"cd /verif && /venv/bin/python -m asv {pid} --tier quick",
+        "thorough_cmd": f"cd /verif && /venv/bin/python -m asv {pid} --tier thorough",
         "evidence_file": f"/verif/evidence/{pid}.json",
-        "replay_cmd_template": f"/venv/bin/python -m asv {pid} --replay {{path}}",
+        "replay_cmd_template": f"cd /verif && /venv/bin/python -m asv {pid} --replay {{path}}",
         "engine": "asv",
         "level_claimed": {"category": "other", "text": m.LEVEL_TEXT, "design_ref": m.DESIGN_REF},
         "level_note": m.LEVEL_NOTE,
@@ -27,7 +27,7 @@ for p in props:
     })
 man = {
     "version": 1,
-    "setup_cmd": "/venv/bin/python -m asv --selfcheck",
+    "setup_cmd": "cd /verif && /venv/bin/python -m asv --selfcheck",
     "hooks": {
         "guard": "ASIMAP_VERIF",
         "enable": "none needed: the checks parse /repo/asimap/*.py and execute nothing, so /repo carries no instrumentation",
@@ -43,7 +43,7 @@ man = {
     }],
     "checks": checks,
     "not_applicable": na,
-    "notes": "Technique family: static analysis only. Every check decides named structural clauses (necessary conditions) of its property on the current /repo tree and says so; value-level parts are listed as not decided in DESIGN.md and in each level_note. Exit 2 = ANALYSIS-ERROR (vanished anchor / instance floor), never used to hide a violation.",
+    "notes": "Technique family: static analysis only. Every check decides named structural clauses (necessary conditions) of its property on the current /repo tree and says so; value-level parts are listed as not decided in DESIGN.md and in each level_note. Exit 2 = ANALYSIS-ERROR (a function or table the rules are anchored on no longer exists, or an internal error), never used to hide a violation; a missing construct that carries a clause (a guard, a call, a statement) and an instance count below the hand-confirmed floor are findings, not analysis errors. Thorough = quick + self-test of the checker on the current tree (neutral twins, breaking variants, mypy cross-check of call edges), reported in the evidence, never a VIOLATION.",
 }
 json.dump(man, open(f"{V}/MANIFEST.json", "w"), indent=1)
 print("checks:", [c["property_id"] for c in checks], "n/a:", [x["property_id"] for x in na])
